@@ -414,7 +414,8 @@ class Analyzer:
                     else:
                         # v <= P + d for clean parameter terms P: bounding any of them bounds v
                         for (x, y), d in st.rel.items():
-                            if x == w[1] and self.liftable_term(y, st.dirty) and isinstance(y[1], int) and 1 <= y[1] <= self.b.argc:
+                            if x == w[1] and self.liftable_term(y, st.dirty) and isinstance(y[1], int) and 1 <= y[1] <= self.b.argc \
+                                    and d + w[2] <= self.MAG_LIMIT:
                                 cands.append(("n", y, d + w[2]))
             if cands:
                 lift = ("mag", cands)
